@@ -38,6 +38,9 @@ func genOp(c *Ctx, massive bool) Op {
 	case 4:
 		op.Kind, op.DryRun = "output", true
 		op.Exts = extSets[c.Draw(len(extSets))]
+		if c.Chance(1, 4) {
+			op.Encode = 1 + c.Draw(3) // both options at once: accepted, and defined by simple mode
+		}
 	case 5:
 		op.Kind = "walk"
 		op.Branch = branchSets[c.Pick(4, 1, 1, 1, 1, 1, 1)]
@@ -536,6 +539,14 @@ func caseC11(c *Ctx) {
 		c11EnumCancel(c, s, arm, mk, ref, refSnap, trees)
 		return
 	}
+	if arm == "core" && !s.op.FromRoot && c.Chance(1, 12) {
+		c11Endless(c, s, mk)
+		return
+	}
+	if arm == "core" && (s.op.Kind == "output" || (s.op.Kind == "mkdir" && s.op.DryRun && s.op.FromRoot)) && c.Chance(1, 12) {
+		c11StalledWriter(c, s, mk)
+		return
+	}
 	d2 := s.prepareTarget(c, 2)
 	env := mk(d2)
 	plan.apply(env)
@@ -910,4 +921,72 @@ func c11EnumCancel(c *Ctx, s *massiveScenario, arm string, mk func(*DiskPlan) *E
 		c.dropSched(name)
 	}
 	c.st.Sample("cancel-enumeration", map[string]any{"arm": arm, "op": s.op.String(), "doc": string(s.doc), "base_steps": n, "cancel_instants_enumerated": len(ks)})
+}
+
+// c11Endless: the input never ends (after the document the reader keeps delivering one more
+// child line); only the cancellation can end the call, and it must.
+func c11Endless(c *Ctx, s *massiveScenario, mk func(*DiskPlan) *Env) {
+	d := s.prepareTarget(c, 5)
+	env := mk(d)
+	env.Reader = readerPlanFor(c)
+	env.Reader.Endless = s.sp.Unit + "- more\n"
+	if !strings.HasSuffix(string(s.doc), "\n") {
+		env.Doc = append(append([]byte(nil), s.doc...), '\n')
+	}
+	mode := []string{"cancel", "deadline"}[c.Draw(2)]
+	env.Ctx = CtxPlan{Mode: mode, AtStep: 20 + c.Draw(400)}
+	env.MaxSteps = 6000
+	env.Level2 = level2Build
+	c.Scenario["faults"] = fmt.Sprintf("endless input (%q repeated), context %s at step %d", env.Reader.Endless, mode, env.Ctx.AtStep)
+	c.st.Count("endless-input")
+	got := c.Sim("endless", s.op, env)
+	dropJail(d)
+	if got.EndlessReads > 0 && got.CancelFired {
+		c.st.Distinct("nontrivial", mix(hashStr(string(s.doc)+s.op.String()+"endless"), got.TraceHash))
+	}
+	if len(got.Panics) > 0 {
+		c.Failf("C11:panic-under-fault:"+got.Panics[0].Site, "endless input + cancellation: panic %s", got.Panics[0].Value)
+	}
+	if got.StepCap {
+		c.Failf("C11:keeps-reading-after-cancellation:"+s.op.Kind, "the input never ends; the context was cancelled at step %d (fired=%v, returned=%v with %s) and after %d more steps goroutines of the call are still busy (%d reads of the endless tail):\n%s", env.Ctx.AtStep, got.CancelFired, got.Returned, errStr(got.Err), got.Steps-got.CancelStep, got.EndlessReads, leakDetail(got))
+	}
+	if got.Hang {
+		c.Failf("C11:hang:"+leakOrCallerSite(got), "endless input, context cancelled at step %d: the call never returned\n%s", env.Ctx.AtStep, hangDetail(got))
+	}
+	if len(got.Leaks) > 0 {
+		c.Failf("C11:leak:"+leakSig(got), "endless input, context cancelled: the call returned %s but goroutines remain:\n%s", errStr(got.Err), leakDetail(got))
+	}
+	if got.Returned && got.Err == nil {
+		c.Failf("C11:cancelled-but-nil-incomplete:"+s.op.Kind+":endless-input", "the input never ends, so the work cannot be complete, yet the call returned nil")
+	}
+}
+
+// c11StalledWriter: one Write never returns (a stalled pipe). With a cancellation the call
+// must still return; the goroutines stuck behind the caller's writer are the caller's.
+func c11StalledWriter(c *Ctx, s *massiveScenario, mk func(*DiskPlan) *Env) {
+	env := mk(nil)
+	env.Reader = readerPlanFor(c)
+	env.Writer = WriterPlan{FailAt: c.Draw(6), Stall: true}
+	mode := []string{"cancel", "deadline"}[c.Draw(2)]
+	env.Ctx = CtxPlan{Mode: mode, AtStep: 30 + c.Draw(500)}
+	env.MaxSteps = 40000 + 4*len(s.doc)
+	c.Scenario["faults"] = fmt.Sprintf("write #%d never returns, context %s at step %d", env.Writer.FailAt, mode, env.Ctx.AtStep)
+	c.st.Count("stalled-writer")
+	got := c.Sim("stalled", s.op, env)
+	if !got.WriterStalled {
+		return // fewer writes than the stall index: nothing injected
+	}
+	c.st.Count("fault.fired:writer-stall")
+	if got.CancelFired {
+		c.st.Distinct("nontrivial", mix(hashStr(string(s.doc)+s.op.String()+"stalled"), got.TraceHash))
+	}
+	if len(got.Panics) > 0 {
+		c.Failf("C11:panic-under-fault:"+got.Panics[0].Site, "stalled writer + cancellation: panic %s", got.Panics[0].Value)
+	}
+	if got.StepCap {
+		c.Failf("C11:livelock:"+s.op.Kind, "stalled writer: step cap exceeded")
+	}
+	if got.CancelFired && got.CancelBeforeReturn && !got.Returned {
+		c.Failf("C11:no-return-behind-stalled-writer:"+s.op.Kind, "write #%d of the caller's writer never returns; the context was cancelled at step %d and the call still did not return:\n%s", env.Writer.FailAt, got.CancelStep, hangDetail(got))
+	}
 }
